@@ -461,6 +461,30 @@ func checkAdsConstructor(r *Reporter, p *Prog) {
 			}
 			return false
 		}
+		// "default, then override": the fresh trie is built first and replaced by the imported one on the
+		// success edge - both calls assign the same variable, so on the success path the fresh one is dead
+		if okI && !okN {
+			target := func(c *ast.CallExpr) types.Object {
+				var o types.Object
+				for _, b := range f.G.Blocks {
+					for _, nd := range b.Nodes {
+						if as, isAs := nd.(*ast.AssignStmt); isAs && len(as.Lhs) == 1 && len(as.Rhs) == 1 && ast.Unparen(as.Rhs[0]) == ast.Expr(c) {
+							o = objOfIdent(info, as.Lhs[0])
+						}
+					}
+				}
+				return o
+			}
+			if tn, ti := target(news[0]), target(imports[0]); tn != nil && tn == ti {
+				if _, before := f.reach(Point{npt.B, npt.I + 1}, nil, func(q Point, atExit bool) bool { return !atExit && f.At(q, ipt) }); before {
+					okN = true
+				}
+			}
+		}
+		// (reported on its own: the two constructors must agree on the value hasher whatever the shape)
+		if !hasher(imports[0]) || !hasher(news[0]) {
+			r.Fail("reopen/constructor", key+" value hasher", f.PosOf(ipt), "both trie constructors must disable the value hasher identically (WithValueHasher(nil)); otherwise a reopened trie computes different roots")
+		}
 		switch {
 		case !okI || !okN:
 			r.Fail("reopen/constructor", key, f.PosOf(ipt), "the trie must be imported exactly when reading the stored root succeeded, and created fresh otherwise")
@@ -684,21 +708,74 @@ func checkStoredValueNonNil(r *Reporter, p *Prog, pkg string, info *types.Info) 
 		r.Fail("presence/stored-value-non-nil", key, p.posStr(fd.Pos()), fmt.Sprintf("expected one tree.Update, found %d", len(updates)))
 		return
 	}
-	var v types.Object
+	// the location that holds the encoded value: a variable, or a field of a record variable - also
+	// the record of an encoding helper spliced in, whose named result is what the caller's record is
+	// copied from
+	type loc struct {
+		obj   types.Object
+		field string
+	}
+	var locs []loc
+	var valArg ast.Expr
 	inspectNoLit(f.nodeAt(updates[0]), func(n ast.Node) bool {
 		if cl, ok := n.(*ast.CallExpr); ok && strings.HasSuffix(exprKey(cl.Fun), ".tree.Update") && len(cl.Args) == 2 {
-			v = objOfIdent(info, cl.Args[1])
+			valArg = cl.Args[1]
 		}
 		return true
 	})
-	if v == nil {
-		r.Fail("presence/stored-value-non-nil", key, f.PosOf(updates[0]), "the value handed to tree.Update is not a plain variable: cannot establish that it is non-nil")
+	if o := objOfIdent(info, valArg); o != nil {
+		locs = append(locs, loc{o, ""})
+	} else if se, ok := ast.Unparen(valArg).(*ast.SelectorExpr); ok {
+		if o := objOfIdent(info, se.X); o != nil {
+			if sel := info.Selections[se]; sel != nil && sel.Kind() == types.FieldVal {
+				locs = append(locs, loc{o, se.Sel.Name})
+				// where the record comes from: the results of a spliced helper
+				if defs, fromEntry := f.ReachingDefs(updates[0], o); len(defs) == 1 && !fromEntry {
+					if as, isAs := f.nodeAt(defs[0].At).(*ast.AssignStmt); isAs && len(as.Rhs) == 1 {
+						if c, isCall := ast.Unparen(as.Rhs[0]).(*ast.CallExpr); isCall {
+							if reg := f.regionByCall(c); reg != nil {
+								li := -1
+								for k, l := range as.Lhs {
+									if objOfIdent(info, l) == o {
+										li = k
+									}
+								}
+								for _, rt := range reg.rets {
+									if li >= 0 && li < len(rt.results) {
+										if ho := objOfIdent(info, rt.results[li]); ho != nil {
+											locs = append(locs, loc{ho, se.Sel.Name})
+										}
+									}
+								}
+							}
+						}
+					}
+				}
+			}
+		}
+	}
+	isLoc := func(e ast.Expr) bool {
+		e = ast.Unparen(e)
+		for _, l := range locs {
+			if l.field == "" {
+				if objOfIdent(info, e) == l.obj {
+					return true
+				}
+			} else if se, ok := e.(*ast.SelectorExpr); ok && se.Sel.Name == l.field && objOfIdent(info, se.X) == l.obj {
+				return true
+			}
+		}
+		return false
+	}
+	if len(locs) == 0 {
+		r.Fail("presence/stored-value-non-nil", key, f.PosOf(updates[0]), "the value handed to tree.Update is neither a variable nor a field of a record variable: cannot establish that it is non-nil")
 		return
 	}
+	vName := exprKey(valArg)
 	var nilEdges, nonNilEdges []Edge
 	f.forEachEdgeFact(func(e Edge, b *cfg.Block, ft fact) {
 		x, nonNilOnTrue, ok := nilTest(info, ft.Atom)
-		if !ok || objOfIdent(info, x) != v {
+		if !ok || !isLoc(x) {
 			return
 		}
 		if nonNilOnTrue == ft.Pol {
@@ -708,7 +785,7 @@ func checkStoredValueNonNil(r *Reporter, p *Prog, pkg string, info *types.Info) 
 		}
 	})
 	if len(nilEdges) == 0 {
-		r.Fail("presence/stored-value-non-nil", key, f.PosOf(updates[0]), "the encoded value "+v.Name()+" reaches tree.Update without ever being compared with nil: a nil-encoded empty value is stored as a leaf that has() and Get() report as absent (Size drifts, Stream still lists the key)")
+		r.Fail("presence/stored-value-non-nil", key, f.PosOf(updates[0]), "the encoded value "+vName+" reaches tree.Update without ever being compared with nil: a nil-encoded empty value is stored as a leaf that has() and Get() report as absent (Size drifts, Stream still lists the key)")
 		return
 	}
 	reassigns := func(n ast.Node) bool {
@@ -717,7 +794,7 @@ func checkStoredValueNonNil(r *Reporter, p *Prog, pkg string, info *types.Info) 
 			return false
 		}
 		for i, l := range as.Lhs {
-			if objOfIdent(info, l) == v && i < len(as.Rhs) && !isNil(info, as.Rhs[i]) {
+			if isLoc(l) && i < len(as.Rhs) && !isNil(info, as.Rhs[i]) {
 				return true
 			}
 		}
@@ -725,13 +802,13 @@ func checkStoredValueNonNil(r *Reporter, p *Prog, pkg string, info *types.Info) 
 	}
 	for _, e := range nilEdges {
 		if w, found := f.reach(Point{e.From.Succs[e.Succ], 0}, &searchOpts{AvoidNode: reassigns}, func(pt Point, atExit bool) bool { return !atExit && f.At(pt, updates[0]) }); found {
-			r.Fail("presence/stored-value-non-nil", key, f.PosOf(updates[0]), "tree.Update is reachable with "+v.Name()+" known to be nil: the stored leaf is indistinguishable from an absent key", w...)
+			r.Fail("presence/stored-value-non-nil", key, f.PosOf(updates[0]), "tree.Update is reachable with "+vName+" known to be nil: the stored leaf is indistinguishable from an absent key", w...)
 			return
 		}
 	}
 	// and the test is on every path to the update
 	if w, only := f.OnlyThroughEdges(updates[0], append(nilEdges, nonNilEdges...)); !only {
-		r.Fail("presence/stored-value-non-nil", key, f.PosOf(updates[0]), "a path reaches tree.Update without passing the nil test of "+v.Name(), w...)
+		r.Fail("presence/stored-value-non-nil", key, f.PosOf(updates[0]), "a path reaches tree.Update without passing the nil test of "+vName, w...)
 		return
 	}
 	r.Pass("presence/stored-value-non-nil", key, f.PosOf(updates[0]), "the value is nil-tested on every path and replaced by a non-nil slice on the nil edge before tree.Update")
